@@ -229,7 +229,9 @@ ADDENDA = {
            'string buffer are copied, never assigned as structures (and a duplicated symbol entry gets a fresh string); '
            'the line buffer is grown before #define expansion lengthens it; relative seeks by file values go forward; a '
            'growing index into a fixed local array is compared with its size; alink patches the record buffer only at '
-           'checked offsets.',
+           'checked offsets. Every cycle of the call graph bounds its depth (depth counter with limit, cleared flag, '
+           'descent of a data structure, or a listed reason): nesting in one source line cannot exhaust the stack; '
+           'stores of a chained addressing mode into the fixed extension-word array lie behind a bound test.',
     'C04': ' Also: line bytes are written straight to the file only after the write-behind buffer was flushed.'
            ' A segment is marked used before its counter advances, also for lines that emit nothing.',
     'C05': ' Also: the measuring pass updates start/stop/granularity only for records the copy selects; the target offset of '
